@@ -1303,6 +1303,18 @@ def rule_ppq_over_all_divisions(ctx):
         ctx.check(ok, rule, f"`{norm(s)[:50]}`", func=f, node=s, construct="ppq-from-first-divisions-only",
                   msg=f"`{norm(s)[:60]}` selects {'one row' if not ok else 'all rows'} of the part's divisions table: a part whose divisions change (2 then 3) is "
                       f"exported with a ppq that cannot represent the later section")
+        # the column must reach the lcm whole: no max()/min()/single element taken from it first
+        par = getattr(s, "_parent", None)
+        reduced = None
+        if isinstance(par, ast.Attribute) and par.value is s and par.attr in ("max", "min", "mean", "item", "sum", "prod"):
+            reduced = f".{par.attr}()"
+        elif isinstance(par, ast.Subscript) and par.value is s:
+            reduced = "one element"
+        elif isinstance(par, ast.Call) and s in par.args and norm(par.func) in ("max", "min", "np.max", "np.min", "numpy.max", "numpy.min", "np.amax", "np.amin"):
+            reduced = f"{norm(par.func)}()"
+        ctx.check(reduced is None, rule, f"`{norm(s)[:50]}` whole", func=f, node=s, construct="ppq-from-reduced-divisions",
+                  msg=f"the divisions column of a part is reduced with {reduced} before the lcm: a part whose divisions change to values that do not "
+                      f"divide one another (4 then 6) gets a ppq that cannot represent both sections")
     lcm = any(isinstance(c, ast.Call) and norm(c.func) in ("np.lcm.reduce", "numpy.lcm.reduce") for c in ast.walk(f.node))
     ctx.check(lcm, rule, "lcm over the divisions", func=f, construct="ppq-not-lcm", msg="get_ppq must reduce the divisions with np.lcm")
 
